@@ -77,6 +77,10 @@ claim("C14", "other", "structural rules on the PEG grammar AST (own rust-peg rea
       "Every meaningless respelling named by C14 needs a tolerant spot in the grammar or lexer; each spot is decided as a necessary condition: both blank kinds in space(), space() around every infix token, inside parentheses/calls, around the comma, between label/mnemonic/operands/comment; the three comment forms after every content-bearing line form and on their own; both letter cases in the register and hex-digit classes; lower-casing before the mnemonic, directive, register and function-name lookups; str::lines for LF/CRLF; radix forms under C05. Level 'other': arbitrary combinations of respellings (PEG ordered-choice interactions) are not decided.",
       "Out of scope (avrasm itself is strict there): blank after a prefix operator, around the '+' of Y+q, before a label, upper-case 0X/0B and directive names.", engine="E0+E2+E4")
 
+claim("C15", "other", "error-discipline analysis over resolved MIR: every error exit with a CodePoint in scope (dominating definition) is classified by its format arguments / `?` source, attribution solved as a greatest fixpoint over the call graph; path rules by abstract interpretation for line numbers and .message/.warning/.error; move/clone-only flow of the message list",
+      "Error sites are finite and enumerable from MIR although the inputs reaching them are not: ~75 bail! sites and ~100 `?` sites are classified; in a function that knows the current item's line every error must carry it, and `?` is accepted only from callees all of whose exits are attributed (root causes are reported, cascades are not). CodePoint line = iterator index + 1 over lines().enumerate(); .error has no Ok path, .message/.warning push exactly one string with their line and do nothing else; the message list is handed parse -> pass 0 -> 1 -> 2 -> BuildResult by move/clone only. Level 'other': that the *right* line is named when a fault surfaces in a later pass than it was written is not decided.",
+      "Named exception: Directive::parse -> parse_file_internal (a nested file's errors carry their own line). Trusted: rustc MIR.", engine="E0+E1+E3")
+
 ENGINES = [
     {"name": "E0 fact driver", "path": "driver/", "serves_properties": sorted(P), "kind_free_text": "rustc_private driver (RUSTC_WORKSPACE_WRAPPER) dumping callee-resolved MIR, ADT/static/impl tables of /repo's two crates as JSON"},
     {"name": "E1 abstract interpreter", "path": "analysis/absint.py", "serves_properties": ["C01", "C02", "C03", "C04", "C05", "C06", "C08", "C12", "C13"], "kind_free_text": "path-sensitive abstract interpretation of MIR: named unknowns, value sets, bit provenance, linear forms; no solver, no execution of /repo"},
